@@ -397,8 +397,22 @@ fn c_extract(lib: &Lib, archive: &[u8], encrypted: bool, sched: &Sched, decline:
     let mut cfg: *mut c_void = std::ptr::null_mut();
     (lib.reader_config_new)(&mut cfg);
     if encrypted {
+        // candidate keys are added one call per key: the recipient's alone, before a foreign one, or after it
         let k = pem_of_key(0, true);
-        (lib.reader_config_add_private_key)(cfg, k.as_ptr());
+        let foreign = pem_of_key(5, true);
+        match archive.len() % 3 {
+            0 => {
+                (lib.reader_config_add_private_key)(cfg, k.as_ptr());
+            }
+            1 => {
+                (lib.reader_config_add_private_key)(cfg, k.as_ptr());
+                (lib.reader_config_add_private_key)(cfg, foreign.as_ptr());
+            }
+            _ => {
+                (lib.reader_config_add_private_key)(cfg, foreign.as_ptr());
+                (lib.reader_config_add_private_key)(cfg, k.as_ptr());
+            }
+        }
     }
     // On fault-free schedules the same context (stream position left where it is) has been used before:
     // by mla_roarchive_info (its answer is checked), or by a complete earlier extraction.
@@ -932,7 +946,7 @@ pub fn run(started: Instant) -> i32 {
         rep,
         Meta {
             level: "model_checking",
-            rule: "libmla.so built from the working tree is loaded with dlopen and driven through its C entry points in worker processes. (1) every program of a bounded tree (and rich bases, flush placements) expressed as mla_archive_file_new/append/flush/close + mla_archive_close, with one recipient, two recipients in one PEM text or two in two calls (the archive is read back with the key of the last one), and write callbacks that accept everything / 1 byte / 7 bytes per call; the collected bytes are read by the Rust ArchiveReader and compared with the reference model; where the program calls mla_archive_flush, the bytes the callback had received when it returned are repaired and must hold what had been appended (C14's oracle). (2) archives written by the Rust writer (4 layer combos) extracted with mla_roarchive_extract through read callbacks returning everything / 1 / 5 bytes and per-file write callbacks accepting partial buffers: exact bytes per file; also with a file callback that declines every other file (subset extraction: nothing for the declined ones); base programs also with non-ASCII, nested and spaced names in both directions; on fault-free schedules the context has been used before, by mla_roarchive_info (version and layer bits checked against the header) or by a complete earlier extraction, and is not rewound by the caller. (3) for a subset of (1)/(2), at EVERY callback invocation index: accept 1 byte, accept half, report failure, or report an interruption (EINTR, nothing transferred: the call must be retried and the result be exact) - a reported failure must surface as a non-success status no later than the close; 37 NULL-pointer / cleared-handle / double-close / handle-after-failed-call placements and 7 calls refused for other reasons (duplicate name - the archive must then be the archive of the accepted calls -, close with a file open, level 12, malformed or wrong-kind key, extraction without / with a foreign key) must return a non-success status. No crash, signal or panic across the FFI in any case. states = distinct (case, schedule)".to_string(),
+            rule: "libmla.so built from the working tree is loaded with dlopen and driven through its C entry points in worker processes. (1) every program of a bounded tree (and rich bases, flush placements) expressed as mla_archive_file_new/append/flush/close + mla_archive_close, with one recipient, two recipients in one PEM text or two in two calls (the archive is read back with the key of the last one), and write callbacks that accept everything / 1 byte / 7 bytes per call; the collected bytes are read by the Rust ArchiveReader and compared with the reference model; where the program calls mla_archive_flush, the bytes the callback had received when it returned are repaired and must hold what had been appended (C14's oracle). (2) archives written by the Rust writer (4 layer combos) extracted with mla_roarchive_extract through read callbacks returning everything / 1 / 5 bytes and per-file write callbacks accepting partial buffers, the recipient's private key registered alone, before or after a foreign key (one call per key): exact bytes per file; also with a file callback that declines every other file (subset extraction: nothing for the declined ones); base programs also with non-ASCII, nested and spaced names in both directions; on fault-free schedules the context has been used before, by mla_roarchive_info (version and layer bits checked against the header) or by a complete earlier extraction, and is not rewound by the caller. (3) for a subset of (1)/(2), at EVERY callback invocation index: accept 1 byte, accept half, report failure, or report an interruption (EINTR, nothing transferred: the call must be retried and the result be exact) - a reported failure must surface as a non-success status no later than the close; 37 NULL-pointer / cleared-handle / double-close / handle-after-failed-call placements and 7 calls refused for other reasons (duplicate name - the archive must then be the archive of the accepted calls -, close with a file open, level 12, malformed or wrong-kind key, extraction without / with a foreign key) must return a non-success status. No crash, signal or panic across the FFI in any case. states = distinct (case, schedule)".to_string(),
             exhaustive: true,
             bounds: json!({"cases": cs.len(), "null_placements": N_NULL}),
             assumptions: vec!["the C API only offers the default layers (compress+encrypt) for writing".to_string(), "scaled constants".to_string()],
